@@ -1106,7 +1106,12 @@ func (e *Engine) runAts(st *State, in ssa.Instruction, after bool) {
 		case "assert":
 			g := e.evalBool(st, env, at.C.E)
 			e.addObl(st, e.oblPrefix(fr.fn)+".assert."+at.C.Label, "assert", at.C.Src, g)
-			st.assume(g) // proved above, usable as a lemma afterwards
+			if g != "false" {
+				// proved above, usable as a lemma afterwards. A clause that forbids an operation outright
+				// (`assert ...: false` at an `#?` anchor) is not assumed: doing so would end the path and the
+				// report would name the anchors that were then never reached instead of the forbidden operation.
+				st.assume(g)
+			}
 		case "assume":
 			st.assume(e.evalBool(st, env, at.C.E))
 			e.noteAssumption(fmt.Sprintf("assume at %s in %s: %s", at.Anchor, e.oblPrefix(fr.fn), at.C.Src))
